@@ -21,11 +21,14 @@ from liesel.option import Option
 BOOK = RecordingKernel.error_book
 
 
-def results_from_codes(E):
-    """E: int array (chains, 4): columns 0,1 burn-in, 2,3 posterior"""
+def results_from_codes(E, split_posterior=False):
+    """E: int array (chains, 4): columns 0,1 burn-in, 2,3 posterior (one posterior epoch, or two of one transition each)"""
     chains = E.shape[0]
     tim, pos = EpochChainManager(), EpochChainManager(apply_thinning=True)
-    for cfg, cols in ((mk_cfg(0, 1, 1), None), (mk_cfg(3, 2, 1), slice(0, 2)), (mk_cfg(4, 2, 1), slice(2, 4))):
+    layout = ((mk_cfg(0, 1, 1), None), (mk_cfg(3, 2, 1), slice(0, 2)), (mk_cfg(4, 2, 1), slice(2, 4)))
+    if split_posterior:
+        layout = ((mk_cfg(0, 1, 1), None), (mk_cfg(3, 2, 1), slice(0, 2)), (mk_cfg(4, 1, 1), slice(2, 3)), (mk_cfg(4, 1, 1), slice(3, 4)))
+    for cfg, cols in layout:
         tim.advance_epoch(cfg)
         pos.advance_epoch(cfg)
         if cols is None:
@@ -33,14 +36,14 @@ def results_from_codes(E):
             continue
         e = jnp.asarray(E[:, cols], dtype=jnp.int32)
         tim.append({"kernel_00": DefaultTransitionInfo(error_code=e, acceptance_prob=jnp.ones_like(e, dtype=jnp.float32), position_moved=jnp.ones_like(e))})
-        pos.append({"p0": jnp.zeros((chains, 2))})
+        pos.append({"p0": jnp.zeros((chains, e.shape[1]))})
     return SamplingResults(positions=pos, transition_infos=tim, generated_quantities=Option(None), tuning_infos=Option(None), kernel_states=Option(None),
                            full_model_states=Option(None), kernel_classes=Option({"kernel_00": RecordingKernel}), kernels_by_pos_key=Option({"p0": "kernel_00"}))
 
 
-def check_pattern(E):
-    inp = {"error_codes": E.tolist(), "warmup_columns": [0, 1], "posterior_columns": [2, 3]}
-    res = results_from_codes(E)
+def check_pattern(E, split_posterior=False):
+    inp = {"error_codes": E.tolist(), "warmup_columns": [0, 1], "posterior_columns": [2, 3], "posterior_epochs": 2 if split_posterior else 1}
+    res = results_from_codes(E, split_posterior)
     log = res.get_error_log(False).unwrap()
     plog = res.get_error_log(True)
     kel = log["kernel_00"]
@@ -122,6 +125,8 @@ def bounded(tier, seed):
     for E in pats:
         try:
             col.add(check_pattern(E))
+            if E.shape[0] == 1 or (E[:, 2:] != 0).any():
+                col.add(check_pattern(E, split_posterior=True))
         except Exception as e:
             col.add({"sig": f"native::errors::exception::{type(e).__name__}", "what": f"{type(e).__name__}: {str(e)[:200]}", "input": {"error_codes": E.tolist()}})
     roundtrips(col, seed)
